@@ -130,7 +130,19 @@ def _helper_ok(g: FunctionInfo) -> bool:
         return False
     a = node.args
     if a.vararg:
-        return False
+        # *items is fine when the function only iterates over it (comprehensions / for loops / len / enumerate / zip)
+        va = a.vararg.arg
+        parents = {}
+        for p_ in ast.walk(node):
+            for ch in ast.iter_child_nodes(p_):
+                parents[id(ch)] = p_
+        for n in _own_nodes(node):
+            if isinstance(n, ast.Name) and n.id == va:
+                par = parents.get(id(n))
+                ok = (isinstance(par, ast.comprehension) and par.iter is n) or (isinstance(par, ast.For) and par.iter is n) or \
+                     (isinstance(par, ast.Call) and isinstance(par.func, ast.Name) and par.func.id in ("len", "enumerate", "zip", "tuple", "list") and n in par.args)
+                if not ok or isinstance(n.ctx, ast.Store):
+                    return False
     for n in _own_nodes(node):
         if isinstance(n, (ast.Yield, ast.YieldFrom, ast.Global, ast.Nonlocal, ast.Await)):
             return False
@@ -139,6 +151,8 @@ def _helper_ok(g: FunctionInfo) -> bool:
         if isinstance(n, ast.Call) and isinstance(n.func, ast.Name) and n.func.id in ("locals", "vars", "globals", "super", "eval", "exec"):
             return False
     for d in list(a.defaults) + [d for d in a.kw_defaults if d is not None]:
+        if isinstance(d, ast.Name) and isinstance(g.module.assigns.get(d.id), ast.Constant):
+            continue  # a module-level constant as default value
         if not isinstance(d, ast.Constant) and not (isinstance(d, ast.UnaryOp) and isinstance(d.operand, ast.Constant)):
             return False
     return True
@@ -220,7 +234,158 @@ def _only_forwarded(fn: ast.AST, kw: str) -> bool:
     """Every use of the **kwargs name is `f(..., **kwargs)`."""
     uses = [n for n in _own_nodes(fn) if isinstance(n, ast.Name) and n.id == kw]
     forwarded = [k.value for n in _own_nodes(fn) if isinstance(n, ast.Call) for k in n.keywords if k.arg is None and isinstance(k.value, ast.Name) and k.value.id == kw]
-    return len(uses) == len(forwarded)
+    # ... or `kwargs.items()` / `.values()` / `.keys()`: with explicit keywords at the call site that is a literal sequence
+    viewed = [n.func.value for n in _own_nodes(fn) if isinstance(n, ast.Call) and isinstance(n.func, ast.Attribute) and n.func.attr in ("items", "values", "keys") and not n.args
+              and isinstance(n.func.value, ast.Name) and n.func.value.id == kw]
+    return len(uses) == len(forwarded) + len(viewed)
+
+
+def _static_test(t: ast.AST, consts: Dict[str, ast.AST]) -> Optional[bool]:
+    """truth value of a test over literals (and module-level constants), or None"""
+    neg = False
+    while isinstance(t, ast.UnaryOp) and isinstance(t.op, ast.Not):
+        t, neg = t.operand, not neg
+
+    def lit(e):
+        if isinstance(e, ast.Name) and isinstance(consts.get(e.id), ast.Constant):
+            return consts[e.id]
+        return e
+
+    val = None
+    t = lit(t)
+    if isinstance(t, ast.Constant) and isinstance(t.value, (bool, int, str, type(None))):
+        val = bool(t.value)
+    elif isinstance(t, ast.Compare) and len(t.ops) == 1:
+        a_, b_ = lit(t.left), lit(t.comparators[0])
+        if isinstance(a_, ast.Constant) and isinstance(b_, ast.Constant) and isinstance(t.ops[0], (ast.Eq, ast.NotEq, ast.Is, ast.IsNot)):
+            a, b = a_.value, b_.value
+            if type(a) is type(b) or a is None or b is None:
+                val = (a == b) if isinstance(t.ops[0], (ast.Eq, ast.Is)) else (a != b)
+        elif isinstance(a_, ast.Constant) and isinstance(t.ops[0], (ast.In, ast.NotIn)) and isinstance(b_, (ast.Tuple, ast.List, ast.Set)) and all(isinstance(e, ast.Constant) for e in b_.elts):
+            inside = a_.value in [e.value for e in b_.elts]
+            val = inside if isinstance(t.ops[0], ast.In) else not inside
+    if val is None:
+        return None
+    return (not val) if neg else val
+
+
+def _fold_constant_tests(stmts: List[ast.stmt], consts: Optional[Dict[str, ast.AST]] = None) -> List[ast.stmt]:
+    """`if "A" == "A": X else: Y` (a helper parameter that selects a variant was bound to a literal) -> X;
+    likewise conditional expressions whose test is decided"""
+    consts = consts or {}
+
+    class E(ast.NodeTransformer):
+        def visit_IfExp(self, n):
+            self.generic_visit(n)
+            v = _static_test(n.test, consts)
+            if v is None:
+                return n
+            return n.body if v else n.orelse
+
+        def visit_FunctionDef(self, n):
+            return n
+
+        def visit_Lambda(self, n):
+            return n
+
+    out: List[ast.stmt] = []
+    for st in stmts:
+        if not isinstance(st, (ast.If, ast.For, ast.While, ast.With, ast.Try)):
+            st = E().visit(st)
+        if isinstance(st, ast.If):
+            val = _static_test(st.test, consts)
+            if val is not None:
+                out += _fold_constant_tests(list(st.body if val else st.orelse), consts)
+                continue
+            st.body = _fold_constant_tests(list(st.body), consts) or [ast.copy_location(ast.Pass(), st)]
+            st.orelse = _fold_constant_tests(list(st.orelse), consts)
+        elif isinstance(st, (ast.For, ast.While, ast.With, ast.Try)):
+            for fld in ("body", "orelse", "finalbody"):
+                sub = getattr(st, fld, None)
+                if isinstance(sub, list) and sub:
+                    setattr(st, fld, _fold_constant_tests(list(sub), consts) or ([ast.copy_location(ast.Pass(), st)] if fld == "body" else []))
+            for h in getattr(st, "handlers", []) or []:
+                h.body = _fold_constant_tests(list(h.body), consts) or [ast.copy_location(ast.Pass(), st)]
+        out.append(st)
+    return out
+
+
+class _VarArgs(ast.AST):
+    """Marker: the helper's *args is bound to these positional arguments of the call (plain names / constants)."""
+
+    _fields = ()
+
+    def __init__(self, items):
+        super().__init__()
+        self.items = list(items)
+
+
+def _unroll_comprehensions(body: List[ast.stmt], literal_names: Dict[str, List[ast.AST]]) -> None:
+    """tuple(E(v) for v in <literal tuple>) / [E(v) for v in <literal>]  ->  (E(a), E(b), E(c)); a local that is defined once by
+    such a display counts as literal for later comprehensions; `return name` of such a local returns the display."""
+    lits = dict(literal_names)
+
+    def literal(e) -> Optional[List[ast.AST]]:
+        if isinstance(e, (ast.Tuple, ast.List)) and not any(isinstance(x, ast.Starred) for x in e.elts):
+            return list(e.elts)
+        if isinstance(e, ast.Name) and e.id in lits:
+            return lits[e.id]
+        return None
+
+    class Sub(ast.NodeTransformer):
+        def __init__(self, var, value):
+            self.var, self.value = var, value
+
+        def visit_Name(self, n):
+            if n.id == self.var and isinstance(n.ctx, ast.Load):
+                return copy.deepcopy(self.value)
+            return n
+
+    class T(ast.NodeTransformer):
+        def visit_FunctionDef(self, n):
+            return n
+
+        def visit_Lambda(self, n):
+            return n
+
+        def unrolled(self, comp):
+            if len(comp.generators) != 1 or comp.generators[0].ifs or not isinstance(comp.generators[0].target, ast.Name):
+                return None
+            seq = literal(comp.generators[0].iter)
+            if seq is None or len(seq) > 8:
+                return None
+            v = comp.generators[0].target.id
+            return [Sub(v, e).visit(copy.deepcopy(comp.elt)) for e in seq]
+
+        def visit_Call(self, c):
+            self.generic_visit(c)
+            if isinstance(c.func, ast.Name) and c.func.id in ("tuple", "list") and len(c.args) == 1 and not c.keywords and isinstance(c.args[0], (ast.GeneratorExp, ast.ListComp)):
+                elts = self.unrolled(c.args[0])
+                if elts is not None:
+                    new = ast.Tuple(elts=elts, ctx=ast.Load()) if c.func.id == "tuple" else ast.List(elts=elts, ctx=ast.Load())
+                    return ast.copy_location(new, c)
+            return c
+
+        def visit_ListComp(self, c):
+            self.generic_visit(c)
+            elts = self.unrolled(c)
+            if elts is not None:
+                return ast.copy_location(ast.List(elts=elts, ctx=ast.Load()), c)
+            return c
+
+    stores: Dict[str, int] = {}
+    for st in body:
+        for n in [st] + list(_own_nodes(st)):
+            if isinstance(n, ast.Name) and isinstance(n.ctx, ast.Store):
+                stores[n.id] = stores.get(n.id, 0) + 1
+    for i, st in enumerate(body):
+        st = T().visit(st)
+        body[i] = st
+        if isinstance(st, ast.Assign) and len(st.targets) == 1 and isinstance(st.targets[0], ast.Name) and stores.get(st.targets[0].id) == 1 and isinstance(st.value, (ast.Tuple, ast.List)):
+            lits[st.targets[0].id] = list(st.value.elts)
+        if isinstance(st, ast.Return) and isinstance(st.value, ast.Name) and st.value.id in lits and stores.get(st.value.id) == 1:
+            st.value = ast.copy_location(ast.Tuple(elts=[copy.deepcopy(e) for e in lits[st.value.id]], ctx=ast.Load()), st.value)
+        ast.fix_missing_locations(st)
 
 
 class _ExplicitKwargs(ast.AST):
@@ -246,7 +411,12 @@ def _bind(g: FunctionInfo, call: ast.Call, recv: Optional[ast.AST]) -> Optional[
         out[pos[0]] = recv
         pos = pos[1:]
     if len(args) > len(pos):
-        return None
+        if a.vararg is None or not all(isinstance(x, (ast.Name, ast.Constant)) for x in args[len(pos):]):
+            return None
+        out[a.vararg.arg] = _VarArgs(args[len(pos):])
+        args = args[: len(pos)]
+    elif a.vararg is not None:
+        out[a.vararg.arg] = _VarArgs([])
     for p, v in zip(pos, args):
         out[p] = v
     for k in call.keywords:
@@ -269,6 +439,8 @@ def _bind(g: FunctionInfo, call: ast.Call, recv: Optional[ast.AST]) -> Optional[
             d = g.param_default(p)
             if d is None:
                 return None
+            if isinstance(d, ast.Name) and isinstance(g.module.assigns.get(d.id), ast.Constant):
+                d = g.module.assigns[d.id]
             out[p] = d
     return out
 
@@ -306,6 +478,25 @@ def _predicate_expr(stmts: List[ast.stmt]) -> ast.AST:
     if isinstance(st, ast.Pass):
         return _predicate_expr(stmts[1:])
     raise NotEligible("predicate body contains other statements")
+
+
+def _value_expr(stmts: List[ast.stmt]) -> ast.AST:
+    """The value a pure selector (only `if` / `return <expr>` statements, every path returns) returns, as one expression:
+    if c: return a; return b   ->   a if c else b"""
+    if not stmts:
+        raise NotEligible("a path falls off the end")
+    st = stmts[0]
+    if isinstance(st, ast.Return):
+        if st.value is None:
+            raise NotEligible("bare return")
+        return copy.deepcopy(st.value)
+    if isinstance(st, ast.If):
+        then = _value_expr(list(st.body) + list(stmts[1:]))
+        els = _value_expr(list(st.orelse) + list(stmts[1:]))
+        return ast.IfExp(test=copy.deepcopy(st.test), body=then, orelse=els)
+    if isinstance(st, ast.Pass):
+        return _value_expr(stmts[1:])
+    raise NotEligible("selector body contains other statements")
 
 
 def _simple_arg(e: ast.AST) -> bool:
@@ -346,6 +537,13 @@ class Inliner:
         body = [copy.deepcopy(s) for s in g.node.body]
         if body and isinstance(body[0], ast.Expr) and isinstance(body[0].value, ast.Constant) and isinstance(body[0].value.value, str):
             body = body[1:]
+        varargs = {p_: v_.items for p_, v_ in binding.items() if isinstance(v_, _VarArgs)}
+        for p_ in varargs:
+            del binding[p_]
+        if varargs:
+            _unroll_comprehensions(body, {p_: items for p_, items in varargs.items()})
+            if any(isinstance(n, ast.Name) and n.id in varargs for s_ in body for n in [s_] + list(_own_nodes(s_))):
+                return None  # some use of *args survived: not modelled
         stored = _stored_names(body)
         params = list(binding)
         local = set(params) | stored
@@ -385,6 +583,14 @@ class Inliner:
             class Fwd(ast.NodeTransformer):
                 def visit_Call(self, c: ast.Call):
                     self.generic_visit(c)
+                    if isinstance(c.func, ast.Attribute) and c.func.attr in ("items", "values", "keys") and not c.args and isinstance(c.func.value, ast.Name) and c.func.value.id == kwname:
+                        if c.func.attr == "items":
+                            elts = [ast.Tuple(elts=[ast.Constant(value=n_), copy.deepcopy(v_)], ctx=ast.Load()) for n_, v_ in items]
+                        elif c.func.attr == "values":
+                            elts = [copy.deepcopy(v_) for n_, v_ in items]
+                        else:
+                            elts = [ast.Constant(value=n_) for n_, v_ in items]
+                        return ast.copy_location(ast.Tuple(elts=elts, ctx=ast.Load()), c)
                     new_kw = []
                     for k in c.keywords:
                         if k.arg is None and isinstance(k.value, ast.Name) and k.value.id == kwname:
@@ -400,6 +606,8 @@ class Inliner:
         else:
             ren = _Rename(mapping)  # type: ignore[arg-type]
             new_body = [ren.visit(s) for s in new_body]
+        # parameters bound to literals can decide tests of the helper's body: keep only the live branch
+        new_body = _fold_constant_tests(new_body, {k_: v_ for k_, v_ in g.module.assigns.items() if isinstance(v_, ast.Constant) and k_ not in stored and k_ not in binding})
         out: List[ast.stmt] = list(pre)
         needs_value = not isinstance(st, ast.Expr)
         if needs_value:
@@ -443,11 +651,154 @@ class Inliner:
         self.log.append(f"{f.qualname}: expanded {g.short} at line {getattr(st, 'lineno', '?')}")
         return out or [ast.copy_location(ast.Pass(), st)]
 
+    def unroll(self, f: FunctionInfo, st: ast.stmt) -> Optional[List[ast.stmt]]:
+        """`for a, b in (("x", x), ("y", y)): BODY`  ->  a, b = "x", x; BODY; a, b = "y", y; BODY
+        for a loop over a short literal sequence whose body neither breaks nor continues and that contains a call of a new
+        helper (only then is the unrolled form of any use: the helper's guards get to see the individual elements)."""
+        if not isinstance(st, ast.For) or st.orelse or not isinstance(st.iter, (ast.Tuple, ast.List)) or not (1 <= len(st.iter.elts) <= 12):
+            return None
+        if any(isinstance(e, ast.Starred) for e in st.iter.elts):
+            return None
+        tgt = st.target
+        if isinstance(tgt, ast.Tuple):
+            if not all(isinstance(t, ast.Name) for t in tgt.elts) or not all(isinstance(e, (ast.Tuple, ast.List)) and len(e.elts) == len(tgt.elts) for e in st.iter.elts):
+                return None
+        elif not isinstance(tgt, ast.Name):
+            return None
+        for n in [x for b in st.body for x in [b] + list(_own_nodes(b))]:
+            if isinstance(n, (ast.Break, ast.Continue)):
+                return None
+        has_helper = any(isinstance(n, ast.Call) and _resolve_helper(self.prog, f, n, self.known) is not None for b in st.body for n in [b] + list(_own_nodes(b)))
+        if not has_helper:
+            return None
+        out: List[ast.stmt] = []
+        for e in st.iter.elts:
+            asg = ast.Assign(targets=[copy.deepcopy(tgt)], value=copy.deepcopy(e))
+            ast.copy_location(asg, st)
+            ast.fix_missing_locations(asg)
+            out.append(asg)
+            out += [copy.deepcopy(b) for b in st.body]
+        self.log.append(f"{f.qualname}: unrolled the loop over a literal sequence at line {getattr(st, 'lineno', '?')}")
+        return out
+
+    def comp_to_loop(self, f: FunctionInfo, st: ast.stmt) -> Optional[List[ast.stmt]]:
+        """`x = [helper(e) for e in it]` / `{helper(e) for e in it}` / `return sum({helper(e) ...})` with a new helper in the element
+        expression: written as the equivalent loop, so that the helper call becomes a statement that can be expanded
+            acc = []; for e in it: tmp = helper(e); acc.append(tmp); x = acc | set(acc)"""
+        if not isinstance(st, (ast.Assign, ast.AnnAssign, ast.Return)) or st.value is None:
+            return None
+        comps = [n for n in ast.walk(st.value) if isinstance(n, (ast.ListComp, ast.SetComp)) and len(n.generators) == 1 and not n.generators[0].ifs and not n.generators[0].is_async]
+        comps = [c for c in comps if isinstance(c.elt, ast.Call) and _resolve_helper(self.prog, f, c.elt, self.known) is not None]
+        if len(comps) != 1:
+            return None
+        c = comps[0]
+        # the comprehension must be evaluated exactly once and unconditionally within the statement
+        for n in ast.walk(st.value):
+            if isinstance(n, (ast.IfExp, ast.BoolOp, ast.Lambda, ast.GeneratorExp)) or (isinstance(n, (ast.ListComp, ast.SetComp, ast.DictComp)) and n is not c):
+                return None
+        self.counter += 1
+        tag = f"__c{self.counter}"
+        acc, tmp = f"acc{tag}", f"elt{tag}"
+        g = c.generators[0]
+        init = ast.Assign(targets=[ast.Name(id=acc, ctx=ast.Store())], value=ast.List(elts=[], ctx=ast.Load()))
+        body = [ast.Assign(targets=[ast.Name(id=tmp, ctx=ast.Store())], value=copy.deepcopy(c.elt)),
+                ast.Expr(value=ast.Call(func=ast.Attribute(value=ast.Name(id=acc, ctx=ast.Load()), attr="append", ctx=ast.Load()), args=[ast.Name(id=tmp, ctx=ast.Load())], keywords=[]))]
+        loop = ast.For(target=copy.deepcopy(g.target), iter=copy.deepcopy(g.iter), body=body, orelse=[])
+        repl = ast.Name(id=acc, ctx=ast.Load()) if isinstance(c, ast.ListComp) else ast.Call(func=ast.Name(id="set", ctx=ast.Load()), args=[ast.Name(id=acc, ctx=ast.Load())], keywords=[])
+
+        class R(ast.NodeTransformer):
+            def visit(self, n):
+                if n is c:
+                    return repl
+                return super().visit(n)
+
+        new_st = copy.copy(st)
+        new_st.value = R().visit(st.value)
+        out = [init, loop, new_st]
+        for o in out:
+            ast.copy_location(o, st)
+            ast.fix_missing_locations(o)
+        self.log.append(f"{f.qualname}: comprehension over a helper call written as a loop at line {getattr(st, 'lineno', '?')}")
+        return out
+
+    PURE_CALLS = {"len", "list", "tuple", "sorted", "argsort", "asarray", "array", "str", "int", "float", "min", "max", "sum", "abs", "range", "enumerate", "zip", "set", "dict", "isinstance",
+                  "reshape", "astype", "flatten", "ravel", "copy", "tolist", "round", "atleast_1d", "repeat", "exp", "log", "floor", "ceil", "minimum", "maximum"}
+
+    def lift_call(self, f: FunctionInfo, st: ast.stmt) -> Optional[List[ast.stmt]]:
+        """`x = helper(a, b)[1:]` / `order = numpy.argsort(helper(..))`: a call of a new helper nested inside the expression of a
+        simple statement is bound to a temporary first (tmp = helper(a, b); x = tmp[1:]), so that it can be expanded like a
+        statement-level call. Only where nothing else in the statement can have an effect or raise before the call is
+        evaluated in a way that matters: the rest of the expression consists of names, constants, attribute / subscript
+        loads and calls of pure builtins."""
+        if not isinstance(st, (ast.Assign, ast.AnnAssign, ast.Return, ast.Expr, ast.AugAssign)) or getattr(st, "value", None) is None:
+            return None
+        root = st.value
+        if isinstance(root, ast.Call) and _resolve_helper(self.prog, f, root, self.known) is not None:
+            return None  # statement-level call: expand_statement
+        target_call = None
+        parents = {}
+        for p_ in ast.walk(root):
+            for ch in ast.iter_child_nodes(p_):
+                parents[id(ch)] = p_
+        for n in ast.walk(root):
+            if isinstance(n, ast.Call) and n is not root and _resolve_helper(self.prog, f, n, self.known) is not None:
+                # not under a construct that evaluates it conditionally or repeatedly
+                q, ok = n, True
+                while id(q) in parents:
+                    q = parents[id(q)]
+                    if isinstance(q, (ast.IfExp, ast.BoolOp, ast.Lambda, ast.ListComp, ast.SetComp, ast.DictComp, ast.GeneratorExp)):
+                        ok = False
+                if ok:
+                    target_call = n
+                    break
+        if target_call is None:
+            return None
+        for n in ast.walk(root):
+            if isinstance(n, ast.Call) and n is not target_call:
+                nm = n.func.id if isinstance(n.func, ast.Name) else n.func.attr if isinstance(n.func, ast.Attribute) else None
+                inside = any(x is n for x in ast.walk(target_call))
+                if not inside and nm not in self.PURE_CALLS:
+                    return None
+            if isinstance(n, (ast.Await, ast.Yield, ast.YieldFrom, ast.NamedExpr)):
+                return None
+        self.counter += 1
+        tmp = f"tmp__l{self.counter}"
+        asg = ast.Assign(targets=[ast.Name(id=tmp, ctx=ast.Store())], value=target_call)
+
+        class R(ast.NodeTransformer):
+            def visit(self, n):
+                if n is target_call:
+                    return ast.Name(id=tmp, ctx=ast.Load())
+                return super().visit(n)
+
+        new_st = copy.copy(st)
+        new_st.value = R().visit(st.value)
+        for o in (asg, new_st):
+            ast.copy_location(o, st)
+            ast.fix_missing_locations(o)
+        self.log.append(f"{f.qualname}: nested helper call bound to a temporary at line {getattr(st, 'lineno', '?')}")
+        return [asg, new_st]
+
     def expand_block(self, f: FunctionInfo, stmts: List[ast.stmt]) -> bool:
         changed = False
         i = 0
         while i < len(stmts):
             st = stmts[i]
+            rep = self.lift_call(f, st)
+            if rep is not None:
+                stmts[i:i + 1] = rep
+                changed = True
+                continue
+            rep = self.comp_to_loop(f, st)
+            if rep is not None:
+                stmts[i:i + 1] = rep
+                changed = True
+                continue
+            rep = self.unroll(f, st)
+            if rep is not None:
+                stmts[i:i + 1] = rep
+                changed = True
+                continue
             rep = self.expand_statement(f, st)
             if rep is not None:
                 stmts[i:i + 1] = rep
@@ -517,13 +868,194 @@ class Inliner:
                 n.test = T().visit(n.test)
         return changed[0]
 
+    def joins_to_fstrings(self, f: FunctionInfo) -> bool:
+        """`";".join([a, b, c])` / `";".join(f"{x}" for x in fields)` with a literal list of fields (possibly bound to a local
+        that is defined once and never modified) is the f-string f"{a};{b};{c}": records built field by field are brought to
+        the template form the rules read."""
+        fn = f.node
+        single_defs: Dict[str, List[ast.AST]] = {}
+        mutated: Set[str] = set()
+        for n in _own_nodes(fn):
+            if isinstance(n, ast.Assign) and len(n.targets) == 1 and isinstance(n.targets[0], ast.Name):
+                single_defs.setdefault(n.targets[0].id, []).append(n.value)
+            elif isinstance(n, (ast.AugAssign, ast.AnnAssign)) and isinstance(n.target, ast.Name):
+                single_defs.setdefault(n.target.id, []).append(None)
+            elif isinstance(n, ast.Call) and isinstance(n.func, ast.Attribute) and isinstance(n.func.value, ast.Name) and n.func.attr in ("append", "extend", "insert", "pop", "remove", "clear", "sort", "reverse"):
+                mutated.add(n.func.value.id)
+            elif isinstance(n, ast.Subscript) and isinstance(n.ctx, (ast.Store, ast.Del)) and isinstance(n.value, ast.Name):
+                mutated.add(n.value.id)
+            elif isinstance(n, (ast.For, ast.comprehension)):
+                for x in ast.walk(n.target):
+                    if isinstance(x, ast.Name):
+                        single_defs.setdefault(x.id, []).append(None)
+
+        def literal(e) -> Optional[List[ast.AST]]:
+            if isinstance(e, (ast.List, ast.Tuple)) and not any(isinstance(x, ast.Starred) for x in e.elts):
+                return list(e.elts)
+            if isinstance(e, ast.Name) and e.id not in mutated and len(single_defs.get(e.id, [])) == 1 and single_defs[e.id][0] is not None and e.id not in f.params:
+                return literal(single_defs[e.id][0])
+            return None
+
+        def fields_of(arg) -> Optional[List[ast.AST]]:
+            lit = literal(arg)
+            if lit is not None:
+                return lit
+            if isinstance(arg, (ast.ListComp, ast.GeneratorExp)) and len(arg.generators) == 1 and not arg.generators[0].ifs and isinstance(arg.generators[0].target, ast.Name):
+                v = arg.generators[0].target.id
+                elt = arg.elt
+                plain = isinstance(elt, ast.Name) and elt.id == v
+                as_str = isinstance(elt, ast.Call) and isinstance(elt.func, ast.Name) and elt.func.id in ("str", "format") and len(elt.args) == 1 and isinstance(elt.args[0], ast.Name) and elt.args[0].id == v and not elt.keywords
+                as_f = isinstance(elt, ast.JoinedStr) and len(elt.values) == 1 and isinstance(elt.values[0], ast.FormattedValue) and isinstance(elt.values[0].value, ast.Name) and elt.values[0].value.id == v \
+                    and elt.values[0].format_spec is None and elt.values[0].conversion == -1
+                if plain or as_str or as_f:
+                    return literal(arg.generators[0].iter)
+            if isinstance(arg, ast.Call) and isinstance(arg.func, ast.Name) and arg.func.id == "map" and len(arg.args) == 2 and isinstance(arg.args[0], ast.Name) and arg.args[0].id == "str":
+                return literal(arg.args[1])
+            return None
+
+        changed = [False]
+
+        class T(ast.NodeTransformer):
+            def visit_FunctionDef(self, n):
+                if n is fn:
+                    self.generic_visit(n)
+                return n
+
+            def visit_Lambda(self, n):
+                return n
+
+            def visit_Call(self, c: ast.Call):
+                self.generic_visit(c)
+                if isinstance(c.func, ast.Attribute) and c.func.attr == "join" and isinstance(c.func.value, ast.Constant) and isinstance(c.func.value.value, str) and len(c.args) == 1 and not c.keywords:
+                    flds = fields_of(c.args[0])
+                    if flds is not None and 1 <= len(flds) <= 40:
+                        sep = c.func.value.value
+                        values: List[ast.AST] = []
+                        for i_, e_ in enumerate(flds):
+                            if i_ and sep:
+                                values.append(ast.Constant(value=sep))
+                            if isinstance(e_, ast.Constant) and isinstance(e_.value, str):
+                                values.append(ast.Constant(value=e_.value))
+                            elif isinstance(e_, ast.JoinedStr):
+                                values += [copy.deepcopy(v_) for v_ in e_.values]
+                            else:
+                                values.append(ast.FormattedValue(value=copy.deepcopy(e_), conversion=-1, format_spec=None))
+                        merged: List[ast.AST] = []
+                        for v_ in values:
+                            if isinstance(v_, ast.Constant) and merged and isinstance(merged[-1], ast.Constant):
+                                merged[-1] = ast.Constant(value=merged[-1].value + v_.value)
+                            else:
+                                merged.append(v_)
+                        changed[0] = True
+                        js = ast.JoinedStr(values=merged)
+                        ast.copy_location(js, c)
+                        ast.fix_missing_locations(js)
+                        return js
+                return c
+
+        T().visit(fn)
+        if changed[0]:
+            self.log.append(f"{f.qualname}: str.join over a literal field list written as an f-string")
+        return changed[0]
+
+    def expand_selectors(self, f: FunctionInfo) -> bool:
+        """A call of a new helper that only selects between expressions (`if c: return a` ... `return b`, no other statement,
+        no raise) is replaced by the conditional expression it computes - wherever it stands, also inside comprehensions.
+        Arguments must be plain names / constants / attribute loads (they may be duplicated)."""
+        inl = self
+        changed = [False]
+
+        class T(ast.NodeTransformer):
+            def visit_FunctionDef(self, n):
+                if n is f.node:
+                    self.generic_visit(n)
+                return n
+
+            def visit_Lambda(self, n):
+                return n
+
+            def visit_Call(self, c: ast.Call):
+                self.generic_visit(c)
+                r = _resolve_helper(inl.prog, f, c, inl.known)
+                if r is None:
+                    return c
+                g, recv = r
+                if g.node.args.kwarg is not None or g.node.args.vararg is not None or not all(_simple_arg(a) for a in c.args) or not all(k.arg and _simple_arg(k.value) for k in c.keywords):
+                    return c
+                body = list(g.node.body)
+                if body and isinstance(body[0], ast.Expr) and isinstance(body[0].value, ast.Constant) and isinstance(body[0].value.value, str):
+                    body = body[1:]
+                if not any(isinstance(x, ast.If) for x in body) or _stored_names(body):
+                    return c  # plain one-line helpers are handled by the expression-level look-through of the resolver
+                try:
+                    expr = _value_expr(body)
+                except NotEligible:
+                    return c
+                binding = _bind(g, c, recv)
+                if binding is None or any(isinstance(v, (_ExplicitKwargs, _VarArgs)) for v in binding.values()):
+                    return c
+                if not _free_names_agree(inl.prog, g, f, set(binding)):
+                    return c
+                new = _Rename(dict(binding)).visit(expr)  # type: ignore[arg-type]
+                ast.copy_location(new, c)
+                for x in ast.walk(new):
+                    if not hasattr(x, "lineno"):
+                        ast.copy_location(x, c)
+                ast.fix_missing_locations(new)
+                inl.expanded[g.qualname] = inl.expanded.get(g.qualname, 0) + 1
+                inl.log.append(f"{f.qualname}: selector {g.short} replaced by its conditional expression at line {getattr(c, 'lineno', '?')}")
+                changed[0] = True
+                return new
+
+        T().visit(f.node)
+        return changed[0]
+
+    def sorts_to_sorted(self, f: FunctionInfo) -> bool:
+        """`x.sort()` on a local list that no other name refers to  ->  `x = sorted(x)`"""
+        fn = f.node
+        aliased: Set[str] = set()
+        for n in _own_nodes(fn):
+            if isinstance(n, ast.Assign) and isinstance(n.value, ast.Name):
+                aliased.add(n.value.id)
+            if isinstance(n, ast.Attribute) and isinstance(n.ctx, ast.Store) and False:
+                pass
+        changed = False
+
+        def walk(stmts: List[ast.stmt]) -> None:
+            nonlocal changed
+            for i, st in enumerate(stmts):
+                if isinstance(st, ast.Expr) and isinstance(st.value, ast.Call) and isinstance(st.value.func, ast.Attribute) and st.value.func.attr == "sort" and not st.value.args \
+                        and isinstance(st.value.func.value, ast.Name) and st.value.func.value.id not in f.params and st.value.func.value.id not in aliased \
+                        and all(k.arg in ("key", "reverse") for k in st.value.keywords):
+                    nm = st.value.func.value.id
+                    new = ast.Assign(targets=[ast.Name(id=nm, ctx=ast.Store())],
+                                     value=ast.Call(func=ast.Name(id="sorted", ctx=ast.Load()), args=[ast.Name(id=nm, ctx=ast.Load())], keywords=list(st.value.keywords)))
+                    ast.copy_location(new, st)
+                    ast.fix_missing_locations(new)
+                    stmts[i] = new
+                    changed = True
+                    continue
+                for fld in ("body", "orelse", "finalbody"):
+                    sub = getattr(st, fld, None)
+                    if isinstance(sub, list) and sub and isinstance(sub[0], ast.stmt) and not isinstance(st, (ast.FunctionDef, ast.AsyncFunctionDef, ast.ClassDef)):
+                        walk(sub)
+                for h in getattr(st, "handlers", []) or []:
+                    walk(h.body)
+
+        walk(fn.body)
+        return changed
+
     def run(self) -> None:
         funcs = list(self.prog.all_functions(include_inlined=True))
+        for f in funcs:
+            self.sorts_to_sorted(f)
         for _round in range(MAX_ROUNDS):
             changed = False
             for f in funcs:
+                changed |= self.expand_selectors(f)
                 changed |= self.expand_block(f, f.node.body)
                 changed |= self.expand_predicates(f)
+                changed |= self.joins_to_fstrings(f)
             if not changed:
                 break
         # helpers that are no longer called anywhere are accounted for in their callers
